@@ -55,22 +55,25 @@ def parseGrant (holder : String) (g : String) : Option Tuple :=
 def parseGrants (holder : String) (gs : String) : Option (List Tuple) :=
   if gs = "-" then some [] else (gs.splitOn ",").mapM (parseGrant holder)
 
-/-- what the typesystem of the target store says about each tuple kind of a Write -/
+/-- what the typesystem of the target store says about each tuple kind of a Write.
+`GetModulesForWriteRequest` looks at all the writes first, then at all the deletes (prefix `d`). -/
 def classifyWrite (store : String) (spec : String) : List TupleModule :=
-  let rec go : List Char → List TupleModule
-    | [] => []
-    | 'd' :: rest => go rest
-    | c :: rest =>
-      (if store = "r" then .typeNotFound      -- the access-control model has none of these types
-       else match c with
-        | 'a' => .module "ma"
-        | 'e' => .module "mb"
-        | 'b' => .module "mb"
-        | 'c' => .module "mc"
-        | 'p' => .noModule
-        | 'x' => .typeNotFound
-        | _ => .relationNotFound) :: go rest
-  go spec.toList
+  let cls : Char → TupleModule := fun c =>
+    if store = "r" then .typeNotFound      -- the access-control model has none of these types
+    else match c with
+      | 'a' => .module "ma"
+      | 'e' => .module "mb"
+      | 'b' => .module "mb"
+      | 'c' => .module "mc"
+      | 'p' => .noModule
+      | 'x' => .typeNotFound
+      | _ => .relationNotFound
+  let rec split : List Char → List Char × List Char
+    | [] => ([], [])
+    | 'd' :: c :: rest => let (w, d) := split rest; (w, c :: d)
+    | c :: rest => let (w, d) := split rest; (c :: w, d)
+  let (w, d) := split spec.toList
+  (w ++ d).map cls
 
 def claimsOf (ident : String) : Option String :=
   if ident = "none" then none else if ident = "empty" then some "" else some "C"
